@@ -1,5 +1,6 @@
 // Distances (C13), memory attributes (C14), CPU kinds (C15): ops, reference models, model-vs-dump comparison.
 #include "world.h"
+#include <functional>
 #include <set>
 #include <algorithm>
 
@@ -294,7 +295,9 @@ static void mem_ops(World &w, const Op &o, int ri) {
     return;
   }
   if (R.memattrs.empty()) { r.ev("%s: no modelled attribute", k.c_str()); return; }
-  auto it = R.memattrs.begin(); std::advance(it, o.u("attr") % R.memattrs.size()); hwloc_memattr_id_t id = it->first; MemAttrModel &A = it->second;
+  // more than half of the memattr ops of a run go to one attribute (the first modelled one: Bandwidth, which needs initiators), so that it collects
+  // several targets with several initiators each - removing one target out of three, shrinking one initiator out of two are the interesting cases
+  auto it = R.memattrs.begin(); std::advance(it, o.u("attr") < 55 ? 0 : o.u("attr") % R.memattrs.size()); hwloc_memattr_id_t id = it->first; MemAttrModel &A = it->second;
   bool need = A.flags & HWLOC_MEMATTR_FLAG_NEED_INITIATOR, higher = A.flags & HWLOC_MEMATTR_FLAG_HIGHER_FIRST;
   if (k == "mem_set") {
     hwloc_obj_t node = sel_type(R, o.u("node"), HWLOC_OBJ_NUMANODE); if (!node) return; uint64_t val = 1 + o.u("val") % 5;   // few values => ties
@@ -321,6 +324,7 @@ static void mem_ops(World &w, const Op &o, int ri) {
   }
   if (k == "mem_query") {
     r.count("probe.memattr_query");
+    auto q_value = [&]() {
     // get_value for every stored entry, cpuset initiators also queried by a strict subset
     if (!need) for (auto &tv : A.noinit) { hwloc_obj_t node = by_gp(R, tv.first); if (!node) continue; hwloc_uint64_t v = 77; int rc = hwloc_memattr_get_value(t, id, node, nullptr, 0, &v); if (rc || v != tv.second) viol0(w, own, "memattr.get_value", "get_value('%s', node gp=%llu) returned %d value %llu, last stored %llu", A.name.c_str(), (unsigned long long)tv.first, rc, (unsigned long long)v, (unsigned long long)tv.second); }
     else for (auto &tv : A.tg) { hwloc_obj_t node = by_gp(R, tv.first); if (!node) continue;
@@ -328,12 +332,16 @@ static void mem_ops(World &w, const Op &o, int ri) {
         if (!iv.is_obj) { BSet q = iv.cs; if (q.weight() > 1 && (o.u("sub") & 1)) q.del((unsigned)q.first()); b = q.to_hwloc(); loc.type = HWLOC_LOCATION_TYPE_CPUSET; loc.location.cpuset = b; } else { loc.type = HWLOC_LOCATION_TYPE_OBJECT; loc.location.object = by_gp(R, iv.objgp); if (!loc.location.object) continue; }
         hwloc_uint64_t v = 77; errno = 0; int rc = hwloc_memattr_get_value(t, id, node, &loc, 0, &v); int e = errno; if (b) hwloc_bitmap_free(b);
         if (rc || v != iv.value) viol0(w, own, "memattr.get_value", "get_value('%s', node gp=%llu, %s initiator) returned %d (errno %d) value %llu, last stored %llu", A.name.c_str(), (unsigned long long)tv.first, iv.is_obj ? "object" : "cpuset", rc, e, (unsigned long long)v, (unsigned long long)iv.value); } }
+    };
+    auto q_targets = [&]() {
     // get_targets with NULL initiator and a short array: *nr convention, exact set
     { size_t ntg = need ? A.tg.size() : A.noinit.size(); unsigned nr = 0; int rc = hwloc_memattr_get_targets(t, id, nullptr, 0, &nr, nullptr, nullptr);
       if (rc || nr != ntg) viol0(w, own, "memattr.get_targets", "get_targets('%s', nr=0) returned %d *nr=%u, %zu targets stored", A.name.c_str(), rc, nr, ntg);
       std::vector<hwloc_obj_t> objs(nr + 2); std::vector<hwloc_uint64_t> vals(nr + 2); unsigned cap = nr ? 1 + (unsigned)(o.u("cap") % (nr + 1)) : 1, nr2 = cap; rc = hwloc_memattr_get_targets(t, id, nullptr, 0, &nr2, objs.data(), vals.data());
       if (rc || nr2 != ntg) viol0(w, own, "memattr.get_targets", "get_targets('%s', array of %u) returned %d *nr=%u, %zu targets stored", A.name.c_str(), cap, rc, nr2, ntg);
       std::set<uint64_t> seen; for (unsigned i = 0; i < cap && i < nr2; i++) { if (!objs[i] || !(need ? A.tg.count(objs[i]->gp_index) : A.noinit.count(objs[i]->gp_index)) || !seen.insert(objs[i]->gp_index).second || objs[i] != by_gp(R, objs[i]->gp_index)) viol0(w, own, "memattr.get_targets", "get_targets('%s') returned an object that is not a stored target of this topology (or twice)", A.name.c_str()); if (!need && vals[i] != A.noinit[objs[i]->gp_index]) viol0(w, own, "memattr.get_targets", "get_targets('%s') returned another value than stored", A.name.c_str()); } }
+    };
+    auto q_targets_by_init = [&]() {
     // get_targets filtered by an initiator: exactly the targets holding a value for an initiator that includes it, each with that value, slot by slot
     if (need) { hwloc_obj_t pu = sel_type(R, o.u("pu") + 7, HWLOC_OBJ_PU); if (pu) { struct hwloc_location loc; loc.type = HWLOC_LOCATION_TYPE_CPUSET; loc.location.cpuset = pu->cpuset;
         std::map<uint64_t, uint64_t> exp; for (auto &tv : A.tg) for (auto &iv : tv.second) if (!iv.is_obj && iv.cs.has(pu->os_index)) exp[tv.first] = iv.value;
@@ -345,6 +353,8 @@ static void mem_ops(World &w, const Op &o, int ri) {
         for (unsigned i = 0; i < nr2; i++) { auto e = objs[i] ? exp.find(objs[i]->gp_index) : exp.end(); if (e == exp.end() || vals[i] != e->second) viol0(w, own, "memattr.get_targets", "get_targets('%s', initiator PU %u): slot %u holds target gp=%llu value %llu, stored value for that target is %llu", A.name.c_str(), pu->os_index, i, objs[i] ? (unsigned long long)objs[i]->gp_index : 0ULL, (unsigned long long)vals[i], e == exp.end() ? 0ULL : (unsigned long long)e->second); }
         for (unsigned i = nr2; i < nr + 3; i++) if (vals[i] != SENT || objs[i]) viol0(w, own, "memattr.get_targets", "get_targets('%s', initiator PU %u) wrote slot %u beyond the %u entries it reports", A.name.c_str(), pu->os_index, i, nr2);
         r.count("probe.memattr_get_targets_by_initiator"); } }
+    };
+    auto q_best_target = [&]() {
     // best target
     if (need) { hwloc_obj_t pu = sel_type(R, o.u("pu"), HWLOC_OBJ_PU); if (pu) { struct hwloc_location loc; loc.type = HWLOC_LOCATION_TYPE_CPUSET; loc.location.cpuset = pu->cpuset;
         bool any = false; uint64_t best = 0; for (auto &tv : A.tg) for (auto &iv : tv.second) if (!iv.is_obj && iv.cs.has(pu->os_index)) { if (!any || (higher ? iv.value > best : iv.value < best)) best = iv.value; any = true; }
@@ -354,15 +364,30 @@ static void mem_ops(World &w, const Op &o, int ri) {
     else { bool any = !A.noinit.empty(); uint64_t best = 0; bool f = true; for (auto &tv : A.noinit) { if (f || (higher ? tv.second > best : tv.second < best)) best = tv.second; f = false; }
       hwloc_obj_t bo = nullptr; hwloc_uint64_t bv = 0; errno = 0; int rc = hwloc_memattr_get_best_target(t, id, nullptr, 0, &bo, &bv); int e = errno;
       if (!any) { if (rc != -1 || e != ENOENT) viol0(w, own, "memattr.best_target", "best_target('%s') without target returned %d errno %d", A.name.c_str(), rc, e); } else if (rc || bv != best || !bo || !A.noinit.count(bo->gp_index) || A.noinit[bo->gp_index] != best) viol0(w, own, "memattr.best_target", "best_target('%s') returned %d value %llu, optimum is %llu", A.name.c_str(), rc, (unsigned long long)bv, (unsigned long long)best); }
+    };
+    auto q_initiators = [&]() {
     // get_initiators / best_initiator of one target
     if (need && !A.tg.empty()) { auto ti = A.tg.begin(); std::advance(ti, o.u("tg") % A.tg.size()); hwloc_obj_t node = by_gp(R, ti->first); if (node) {
         unsigned nr = 0; int rc = hwloc_memattr_get_initiators(t, id, node, 0, &nr, nullptr, nullptr); if (rc || nr != ti->second.size()) viol0(w, own, "memattr.get_initiators", "get_initiators('%s', node gp=%llu) returned %d *nr=%u, %zu initiators stored", A.name.c_str(), (unsigned long long)ti->first, rc, nr, ti->second.size());
         std::vector<struct hwloc_location> ls(nr + 1); std::vector<hwloc_uint64_t> vs(nr + 1); unsigned cap = nr ? 1 + (unsigned)(o.u("cap") % nr) : 1, nr3 = cap; rc = hwloc_memattr_get_initiators(t, id, node, 0, &nr3, ls.data(), vs.data());
         if (rc || nr3 != ti->second.size()) viol0(w, own, "memattr.get_initiators", "get_initiators('%s', array of %u) returned %d *nr=%u, %zu stored", A.name.c_str(), cap, rc, nr3, ti->second.size());
         for (unsigned i = 0; i < nr3 && i < cap; i++) { bool ok = false; for (auto &iv : ti->second) { if (ls[i].type == HWLOC_LOCATION_TYPE_OBJECT ? (iv.is_obj && by_gp(R, iv.objgp) == ls[i].location.object) : (!iv.is_obj && iv.cs == BSet::from(ls[i].location.cpuset))) if (iv.value == vs[i]) ok = true; } if (!ok) viol0(w, own, "memattr.get_initiators", "get_initiators('%s') returned an entry that is not a stored initiator of this topology with its value", A.name.c_str()); }
-        struct hwloc_location bl; hwloc_uint64_t bv = 0; errno = 0; rc = hwloc_memattr_get_best_initiator(t, id, node, 0, &bl, &bv); uint64_t best = 0; bool f = true; for (auto &iv : ti->second) { if (f || (higher ? iv.value > best : iv.value < best)) best = iv.value; f = false; }
-        if (rc || bv != best) viol0(w, own, "memattr.best_initiator", "best_initiator('%s', node gp=%llu) returned %d (errno %d) value %llu, optimum is %llu", A.name.c_str(), (unsigned long long)ti->first, rc, errno, (unsigned long long)bv, (unsigned long long)best);
       } }
+    };
+    auto q_best_initiator = [&]() {
+    // best_initiator of every target, starting with a seeded one (a section of its own so that it can be the first memattr access after an invalidation);
+    // the returned location must be a stored initiator of THAT target holding the optimal value
+    if (need && !A.tg.empty()) { size_t n = A.tg.size(), st = o.u("tg") % n; for (size_t q = 0; q < n; q++) { auto ti = A.tg.begin(); std::advance(ti, (st + q) % n); hwloc_obj_t node = by_gp(R, ti->first); if (!node) continue; int rc;
+        struct hwloc_location bl; memset(&bl, 0, sizeof bl); hwloc_uint64_t bv = 0; errno = 0; rc = hwloc_memattr_get_best_initiator(t, id, node, 0, &bl, &bv); int e = errno; uint64_t best = 0; bool f = true; for (auto &iv : ti->second) { if (f || (higher ? iv.value > best : iv.value < best)) best = iv.value; f = false; }
+        if (rc || bv != best) viol0(w, own, "memattr.best_initiator", "best_initiator('%s', node gp=%llu) returned %d (errno %d) value %llu, optimum is %llu", A.name.c_str(), (unsigned long long)ti->first, rc, e, (unsigned long long)bv, (unsigned long long)best);
+        bool ok = false; for (auto &iv : ti->second) { if (iv.value != best) continue; if (bl.type == HWLOC_LOCATION_TYPE_OBJECT ? (iv.is_obj && by_gp(R, iv.objgp) == bl.location.object) : (!iv.is_obj && bl.location.cpuset && iv.cs == BSet::from(bl.location.cpuset))) ok = true; }
+        if (!ok) viol0(w, own, "memattr.best_initiator", "best_initiator('%s', node gp=%llu) returned a location that is not a stored initiator of that target with the optimal value %llu", A.name.c_str(), (unsigned long long)ti->first, (unsigned long long)best);
+      } }
+    };
+    // the sections run in a seeded rotation: whichever accessor comes first after a restrict / dup / reload is the one that finds the lazy cache invalid
+    { std::function<void()> secs[6] = {q_value, q_targets, q_targets_by_init, q_best_target, q_initiators, q_best_initiator}; unsigned first = (unsigned)((o.u("pu") / 7) % 6);
+      if (R.aux_stale) { r.count("probe.memattr_query_right_after_restrict"); if (need && A.tg.size() >= 2) r.count(first == 5 ? "probe.memattr_best_initiator_first_after_restrict_multi_target" : "probe.memattr_other_first_after_restrict_multi_target"); if (need && !A.tg.empty() && R.aux_stale_numa) r.count("probe.memattr_query_right_after_restrict_removed_node"); R.aux_stale = false; }
+      for (unsigned i = 0; i < 6; i++) secs[(first + i) % 6](); r.count(first == 5 ? "probe.memattr_best_initiator_first" : first == 3 ? "probe.memattr_best_target_first" : "probe.memattr_other_first"); }
     // by_name / name / flags; Capacity is read-only
     { hwloc_memattr_id_t id2 = 9999; const char *nm = nullptr; unsigned long fl = 0; if (hwloc_memattr_get_by_name(t, A.name.c_str(), &id2) || id2 != id || hwloc_memattr_get_name(t, id, &nm) || A.name != nm || hwloc_memattr_get_flags(t, id, &fl) || fl != A.flags) viol0(w, own, "memattr.identity", "get_by_name/get_name/get_flags disagree with the registration of '%s'", A.name.c_str());
       if (!R.adopted) { hwloc_obj_t node = sel_type(R, o.u("pu"), HWLOC_OBJ_NUMANODE); errno = 0; if (node && (hwloc_memattr_set_value(t, HWLOC_MEMATTR_ID_CAPACITY, node, nullptr, 0, 5) != -1 || errno != EINVAL)) viol0(w, own, "memattr.capacity_writable", "set_value(Capacity) did not fail with EINVAL"); } }
